@@ -19,11 +19,15 @@ pub fn main(args: &[String]) {
         let mut sim = Sim::new(seed.wrapping_mul(1_000_003).wrapping_add(k as u64), rec);
         sim.keep_trace = arg(args, "--trace", "0") != "0";
         sim.trace_tail = arg(args, "--trace", "0").parse().unwrap_or(60);
+        // every fourth run is adversarial: hand-made peer messages, pointwise tie only (no P traces)
+        sim.adversarial = k % 4 == 3;
         sim.run(steps);
-        let (c, i) = sim.pt.lines();
-        pel[k % nsh].put("pelection", &c, &i);
-        let (c2, i2) = sim.pt.llines();
-        plog[k % nsh].put("plog", &c2, &i2);
+        if !sim.adversarial {
+            let (c, i) = sim.pt.lines();
+            pel[k % nsh].put("pelection", &c, &i);
+            let (c2, i2) = sim.pt.llines();
+            plog[k % nsh].put("plog", &c2, &i2);
+        }
         rec = sim.rec;
     }
     let mut total = 0;
